@@ -30,7 +30,7 @@ RUN_MODULE = 'Run.C01'
 REPO_BINS = ['sccache']
 THEOREMS = ['C01_table_wf', 'C01_no_argument_lost', 'C01_command_complete', 'C01_parse_total', 'C01_every_argument_placed', 'C01_listed_words_multiset',
             'C01_dep_targets_kept', 'C01_every_result_affecting_arg_is_hashed', 'C01_class_side_conditions',
-            'C01_hash_key_side_conditions', 'C01_hashed_args_reach_hash_key',
+            'C01_hash_key_side_conditions', 'C01_hashed_args_reach_hash_key', 'C01_preprocessed_suffixes_passthrough',
             'C01_dep_target_without_md_dropped', 'C01_x_rs_dropped', 'C01_resynthesis_fixpoint_refuted',
             'C01_resynthesis_fixpoint_partial', 'C01_hit_replays_stored', 'C01_failure_verbatim_never_stored',
             'C01_noncacheable_passthrough']
@@ -44,6 +44,9 @@ ASSUMPTIONS = [
     'reviewed lists in Proofs/ArgTables.v: PreprocOnly, DependencyOnly, and the two S19 rows PreprocDebatable '
     '(-verify, -no-opaque-pointers: act on the compile proper but are classified preprocessor-only; not reproducible '
     'as a wrong result with clang 14)',
+    'extra hashed files (-fsanitize-blacklist=, -fplugin=, -fprofile-use=, -Xclang -load, SCCACHE_EXTRAFILES): sccache is REQUIRED '
+    'to re-read them on every request; a stat-keyed shortcut (size + mtime) is exactly what the same-size-edit quantifier forbids '
+    '(e2e rewrites such a file normally, with the same size and a new mtime, and with the same size and the SAME mtime)',
     'the dist (remote) form of generate_compile_commands and the msvc/nvcc/diab/tasking front ends are not modelled',
 ]
 TRUSTED = [
@@ -101,7 +104,8 @@ UNKNOWN = [b'-O2', b'-Wall', b'-fPIC', b'-g', b'-S', b'-v', b'--verbose', b'-Wl,
            b'/winsysrootx', b'-plugin-arg', b'-plugin-arg-x', b'-plugin-argx', b'-Xclan', b'-remap2', b'-pedantic-error']
 INPUTS = [b'foo.c', b'bar.cpp', b'd/x.cc', b'a.b.c', b'noext', b'.hidden', b'x.h', b'y.hpp', b'z.m', b'w.mm', b'q.cu',
           b'p.rs', b'foo.c/', b'..', b'.', b'/', b'dir/..', b'x.C', b'f.S', b'a.c/.', b'./b.c', b'e.', b'.c', b'k.hip',
-          b'l.ptx', b'm.cubin', b'n.cxx', b'o.c++', b'r.tcc', b's.M', b'dir.d/t', b'u.c//', b'']
+          b'l.ptx', b'm.cubin', b'n.cxx', b'o.c++', b'r.tcc', b's.M', b'dir.d/t', b'u.c//', b'',
+          b'pp.i', b'pp.ii', b'pp.mi', b'pp.mii', b'a.s', b'a.S', b'd/x.i']
 WS = [b' ', b'\n', b'\t', b'  ', b'\r\n', b'\x0b', b'\x0c']
 
 
